@@ -44,7 +44,7 @@ def run_case(c, d):
 def run_case2(c, d):
     stats = {}
     for fn, first, name, entries in c['stats']:
-        path = fn if fn.startswith('rel') else os.path.join(d, fn)
+        path = fn if fn.startswith(('rel', '<')) else os.path.join(d, fn)
         stats[(path, first, name)] = [tuple(e) for e in entries]
     unit = c['unit']
     ou = c['output_unit']
